@@ -1295,6 +1295,13 @@ class Engine:
                         pc.append(env[t.id].len >= 0)
             return outs + [Outcome("fall", env, pc)]
         if isinstance(st, ast.AugAssign):
+            if isinstance(st.target, ast.Subscript) and isinstance(st.target.value, ast.Name) and isinstance(env.get(st.target.value.id), VDict):
+                # d[k] op= v  ==  d[k] = d[k] op v   (k is evaluated once; it has no effect in the subset)
+                load = ast.copy_location(ast.Subscript(value=st.target.value, slice=st.target.slice, ctx=ast.Load()), st)
+                new_v = self.ev(ast.copy_location(ast.BinOp(left=load, op=st.op, right=st.value), st), env, pc)
+                self.flush_pending(env, outs)
+                self.assign(st.target, new_v, env, pc, st.lineno)
+                return outs + [Outcome("fall", env, pc)]
             if not isinstance(st.target, ast.Name):
                 raise Undecided("augmented assignment to non-name", st.lineno)
             cur = self.ev(ast.copy_location(ast.Name(id=st.target.id, ctx=ast.Load()), st), env, pc)
